@@ -392,7 +392,9 @@ int svt_dec_out_buf(EbDecHandle *dec_handle_ptr, EbBufferHeaderType *p_buffer) {
             switch (recon_picture_buf->bit_depth) {
             case EB_8BIT: film_grain_ptr->bit_depth = 8; break;
             case EB_10BIT: film_grain_ptr->bit_depth = 10; break;
-            default: assert(0);
+            default:
+                assert(0);
+                return 1; /* only 8- and 10-bit output exists: no grain synthesis with an unset bit depth */
             }
             copy_even(luma, wd, ht, out_img->y_stride, use_high_bit_depth);
             svt_av1_add_film_grain_run(film_grain_ptr,
